@@ -6,7 +6,7 @@ CHECKS = {
  "C01": ("model_checking", "TLC-decided trace validation of real runs + exhaustive short token soup",
    "The non-blank character sequence (and the case clause, using the scanner's token boundaries) is evaluated by the fast monitor on every call of an exhaustive bounded input space (all token sequences of length <= 2 over a 176-token alphabet, <= 3 over 51 structural tokens; thorough: 3 over the full alphabet) plus truncated/spliced seeds and random walks under rotating configurations; the TLA+ predicate C01 of Props.tla re-decides every flagged call and a sample of all calls (TraceSession). Pipeline frame model: see DESIGN.md 6/C01.",
    "Token boundaries for the case clause come from the real scanner, which C13 checks against Lexer.tla on the same corpora. Hook data (final token table) is only used to localise."),
- "C03": ("exploration", "history checking (format; format again) over seeds and grammar-generated programs, relation decided by Session.tla",
+ "C03": ("model_checking", "history checking (format; format again): MC_MLString / MC_Comment machines formatted twice, seeds, programs derived from Grammar.tla, DirBlocks bodies, statements with several literals; relation idem decided by Session.tla; command-line histories (written in place, then checked)",
    "Idempotence is a hyper-property of the real optimiser, which is deliberately not transcribed; the check explores format^2 histories over all seed programs and generated programs under 6 (18) configurations, with the `idem` relation of Session.tla (precondition checked) re-decided by TLC on sampled and flagged histories.",
    "Well-formedness of seeds is assumed (they are the repository's own valid-code tests); one known finding (F2) is matched by call site."),
  "C04": ("model_checking", "exhaustive short token soup in watchdog-supervised worker processes (release + overflow-checked builds); progress models in TLC",
@@ -87,6 +87,9 @@ m = {
 for pid in ALL:
     if pid in CHECKS:
         cat, tech, text, note = CHECKS[pid]
+        kf = [f["id"].split("-")[0] for f in json.load(open("/verif/known_findings.json"))["known"] if f["property"] == pid]
+        note = note + " The corpus and the clauses of the last run are described in the evidence file (`coverage.rule`); DESIGN.md section 0 lists what each round of seeded changes added." \
+            + (" Known findings matched for this property: " + ", ".join(sorted(set(kf), key=lambda x: int(x[1:]))) + " (known_findings.json)." if kf else "")
         m["checks"].append({
             "property_id": pid,
             "quick_cmd": f"python3 bin/check --property {pid} --tier quick",
